@@ -329,13 +329,22 @@ class C05(Prop):
             eps = 2.0 ** -23 if case["itdt"] == "f4" else 2.0 ** -52
             totals[(s["y"] - 1, s["x"] - 1)] = F(8 * max(1, len(s["it"])) * eps * sum(s["it"])) if case["kind"] == "real" else F(0)
         tol = lambda r, c: totals.get((r, c), F(0))
+        # the summed TIC of a pixel whose exact total is not representable in the intensity type is rounding-determined
+        # for ANY implementation (a dominant peak next to small ones): tolerance for the TIC table only
+        tic_totals = dict(totals)
+        for s in specs:
+            lim = 2 ** 24 if case["itdt"] == "f4" else 2 ** 53
+            if s["tic"] is None and sum(s["it"]) >= lim:
+                eps = 2.0 ** -23 if case["itdt"] == "f4" else 2.0 ** -52
+                tic_totals[(s["y"] - 1, s["x"] - 1)] = F(8 * max(1, len(s["it"])) * eps * sum(s["it"]))
+        tol_tic = lambda r, c: tic_totals.get((r, c), F(0))
         parts_spec, parts_model = {}, {}
         if imz is None:
             parts_spec["parse"] = parts_model["parse"] = False
         else:
             for k in ("extract", "tic"):
-                parts_spec[k] = tables_close(impl[k], spec[k], tol)
-                parts_model[k] = tables_close(impl[k], model[k], tol)
+                parts_spec[k] = tables_close(impl[k], spec[k], tol if k == "extract" else tol_tic)
+                parts_model[k] = tables_close(impl[k], model[k], tol if k == "extract" else tol_tic)
             if specs:
                 ir = impl["range"]
                 ok = isinstance(ir, list) and None not in ir
